@@ -13,21 +13,29 @@ if seed >= 0:
         random.Random('%d:%s' % (seed, salt)).shuffle(lst)
         return lst
 
+    def salt_of(path):
+        # the last two components only: the scratch prefix changes from run to run, the shuffle must not
+        if isinstance(path, int):          # os.scandir(fd)
+            return 'fd'
+        if isinstance(path, bytes):
+            path = os.fsdecode(path)
+        return '/'.join(pathlib.PurePath(os.fspath(path)).parts[-2:])
+
     _iterdir = pathlib.Path.iterdir
     def iterdir(self):
-        return iter(shuf(list(_iterdir(self)), str(self)))
+        return iter(shuf(list(_iterdir(self)), salt_of(self)))
     pathlib.Path.iterdir = iterdir
 
     _listdir = os.listdir
     def listdir(path='.'):
-        return shuf(_listdir(path), str(path))
+        return shuf(_listdir(path), salt_of(path))
     os.listdir = listdir
 
     _scandir = os.scandir
     class _ScanDir:
         def __init__(self, path):
             with _scandir(path) as it:
-                self._entries = shuf(list(it), str(path))
+                self._entries = shuf(list(it), salt_of(path))
         def __iter__(self):
             return iter(self._entries)
         def __next__(self):
